@@ -4,6 +4,7 @@
 import Minicbor.Drv.Proto
 import Minicbor.Encoder
 import Minicbor.Decoder
+import Minicbor.Skip
 import Minicbor.Wire
 
 namespace Minicbor.Drv
@@ -128,6 +129,8 @@ def decOp (w : List String) : String :=
       | "undefined" => showRes (fun _ => "()") input (Dec.undefined input)
       | "simple" => showRes toString input (Dec.simple input)
       | "datatype" => showRes CType.name input (Dec.datatype input)
+      | "skip" => showRes (fun _ => "()") input (Dec.skip true input)
+      | "skip_noalloc" => showRes (fun _ => "()") input (Dec.skip false input)
       | _ => "bad-op"
   | _ => "bad-op"
 
